@@ -110,6 +110,12 @@ def intoSourcemap (b : Bld) : SMap :=
   let m := { m with debugId := b.debugId }
   b.ignore.foldl (fun m i => m.addToIgnoreList i) m
 
+/-- `set_source_root`, `set_file`, `set_debug_id`, `get_source` on the builder -/
+def setSourceRoot (b : Bld) (r : Option Bytes) : Bld := { b with root := r }
+def setFile (b : Bld) (f : Option Bytes) : Bld := { b with file := f }
+def setDebugId (b : Bld) (d : Option Bytes) : Bld := { b with debugId := d }
+def getSource (b : Bld) (i : Nat) : Option Bytes := b.sources[i]?
+
 end Bld
 
 /-- `RewriteOptions` (the in-memory part: `load_local_source_contents` is off) -/
